@@ -153,12 +153,13 @@ def outcome_class(e):
     return "val" if NUMERAL.match(r) else r.split(":")[0]
 
 
-def check_classes(spec, recs):
+def check_classes(spec, recs, strict=True):
     classes = {}
     for e in recs:
         classes.setdefault(e["op"], set()).add(outcome_class(e))
     for op, ent in spec["sigs"].items():
-        if ent["mode"] in ("opt", "res", "assert", "io", "lift", "fold", "readn") and len(classes.get(op, ())) < 2:
+        if strict and ent["mode"] in ("opt", "res", "assert", "io", "lift", "fold", "readn") \
+                and len(classes.get(op, ())) < 2:
             raise lib.ToolError("vacuity: fallible operation %s showed only outcomes %s" % (op, classes.get(op)))
     return classes
 
@@ -243,13 +244,13 @@ def run(ctx):
     validate_inputs(spec, recs)
     if summary["skipped"] == 0:
         check_completeness(spec, summary, n_random)
-        classes = check_classes(spec, recs)
     else:
-        classes = {}
         lib.log("note: %d calls skipped because an in-range operand could not be constructed" % summary["skipped"])
     accepted = judge(ctx, d, recs, "run")
     if summary["skipped"] and not ctx.violations:
         raise lib.ToolError("operands could not be constructed although every constructor record was accepted")
+    # vacuity guard on the outcome classes -- only meaningful once every outcome is the specified one
+    classes = check_classes(spec, recs, strict=not ctx.violations)
     quirk = spurious_none(recs)
     if quirk:
         lib.known_finding(ctx, "ZatBalance::zero() * k is None for every usize k > i64::MAX although the exact "
